@@ -79,9 +79,10 @@ func (i ImportNames) TypeName(t types.Type) string {
 			// Predeclared types such as "error" have no package.
 			return typ.Obj().Name()
 		}
-		if pkgName, ok := i[typ.Obj().Pkg().Path()]; ok {
+		if pkgName, ok := i[typ.Obj().Pkg().Path()]; ok && pkgName != "." {
 			return fmt.Sprintf("%v.%v", pkgName, typ.Obj().Name())
 		}
+		// Local types and types of a dot-imported package are referred to without a qualifier.
 		return typ.Obj().Name()
 	case *types.Slice:
 		return "[]" + i.TypeName(typ.Elem())
